@@ -261,6 +261,13 @@ func (e *Exec) havocObj(s *State, o *Obj, vis map[*Obj]bool) {
 		e.havocReach(s, cur, vis)
 	} else if cur, ok := e.lazyInit[o]; ok {
 		e.havocReach(s, cur, vis)
+	} else {
+		// never read so far: nothing to forget, but a later first read must not see the entry value
+		if s.tainted == nil {
+			s.tainted = map[*Obj]bool{}
+		}
+		s.tainted[o] = true
+		return
 	}
 	var nv Value
 	if o.IsArr {
@@ -333,7 +340,8 @@ func (e *Exec) applyContract(s *State, f *Frame, con *Contract, sig *types.Signa
 			for _, a := range args {
 				e.havocReach(s, a, vis)
 			}
-		} else {
+		}
+		if con.HasModifies || con.AlsoModifies {
 			for _, m := range con.Modifies {
 				e.havocLoc(s, m, env)
 			}
@@ -745,6 +753,18 @@ func (e *Exec) intrinsic(s *State, f *Frame, full string, fn *ssa.Function, args
 		return true
 	case "time.Now":
 		setRes(e.freshValS(s, resType, "now"))
+		return true
+	case "errors.Is":
+		// library fact: errors.Is(nil, target) is false for a non-nil target; otherwise unconstrained; modifies nothing
+		e.note("library fact: errors.Is(nil, t) == false when t != nil; it modifies nothing")
+		r := c.Fresh("errorsIs", SBool)
+		if a, ok := args[0].(*IfaceV); ok {
+			if b, ok := args[1].(*IfaceV); ok {
+				s.axiom(c.Implies(c.And(a.Nil, c.Not(b.Nil)), c.Not(r)))
+				s.axiom(c.Implies(c.And(c.Not(a.Nil), c.Not(b.Nil), c.Eq(a.ID, b.ID)), r))
+			}
+		}
+		setRes(r)
 		return true
 	case "fmt.Errorf", "errors.New":
 		// library fact: these constructors never return nil and do not modify their arguments
